@@ -103,12 +103,15 @@ VALUES = ["3", "-7", " 12 ", "1_000", "0x10", "3.5", "1e3", "-0.0", "inf", "nan"
 
 def gen_cases(rng, tier):
     n = 40 if tier == "quick" else 400
+    for w in TRUE_WORDS + FALSE_WORDS:      # every documented spelling, in three letter cases
+        for s in (w, w.upper(), w.title()):
+            yield dict(kind="cli_args", op="bool", s=s)
     for i in range(n):
         yield dict(kind="cli_args", op="bool", s=_spelling(rng))
     for i in range(n):
         keys = ["k%d" % j for j in range(rng.randint(0, 4))]
         rng.shuffle(keys)
-        types = {k: rng.choice(["bool", "int", "float", "str", "none", "other0", "other1", "other2"]) for k in keys}
+        types = {k: rng.choice(["bool", "bool", "bool", "int", "int", "float", "str", "none", "other0", "other1", "other2"]) for k in keys}
         items = [[k, rng.choice(VALUES)] for k in keys]
         if rng.random() < 0.2:
             items.insert(rng.randint(0, len(items)), ["zz", rng.choice(VALUES)])      # a KEY that is not a required argument
@@ -116,7 +119,7 @@ def gen_cases(rng, tier):
             types["unused"] = "int"
         # mostly-valid: half of the time every value fits its type
         if rng.random() < 0.5:
-            fit = {"bool": ["true", "No", "Y", "0"], "int": ["3", "-7", " 12 ", "1_000"], "float": ["3.5", "1e3", "inf", "nan", "-0.0"],
+            fit = {"bool": ["true", "No", "Y", "0", "no", "F", "yes", "n", "1", "FALSE"], "int": ["3", "-7", " 12 ", "1_000"], "float": ["3.5", "1e3", "inf", "nan", "-0.0"],
                    "str": VALUES, "none": VALUES, "other0": VALUES, "other1": ["10", "ff"], "other2": ["3", "é"]}
             items = [[k, rng.choice(fit[types[k]]) if k in types else v] for k, v in items]
         yield dict(kind="cli_args", op="cast", items=items, types=[[k, t] for k, t in types.items()])
